@@ -276,23 +276,29 @@ impl<'a> RecvOcc<'a> {
     pub uninterp spec fn fut(&self) -> FxHashMap<super::code::StreamId, Option<StreamRecv>>;
     /// `get_or_insert_recv(window)(entry.get_mut())`
     #[verifier::external_body] pub fn get_recv<'b>(&'b mut self, window: u64) -> (r: &'b mut Recv)
-        ensures *r == old(self).cur(), final(self).cur() == *final(r), final(self).key() == old(self).key(), final(self).fut() == old(self).fut()
+        requires !old(self).removed()
+        ensures *r == old(self).cur(), final(self).cur() == *final(r), final(self).key() == old(self).key(), final(self).fut() == old(self).fut(), !final(self).removed()
     { unimplemented!() }
-    /// `entry.remove()`
-    #[verifier::external_body] pub fn remove(self) -> (r: Option<StreamRecv>)
-        ensures r.is_some(), recv_abs(self.fut(), self.key()).is_none()
+    /// whether `remove` was called on this entry
+    pub uninterp spec fn removed(&self) -> bool;
+    /// `entry.remove()`.  The real method consumes the entry; the shim borrows it instead, so that the one axiom below describes both
+    /// ways an entry can end (a by-value shim plus a "dropped" axiom is vacuous at the join after a conditional move: Verus then assumes
+    /// has_resolved of the moved value as well).
+    #[verifier::external_body] pub fn remove(&mut self) -> (r: Option<StreamRecv>)
+        requires !old(self).removed()
+        ensures r.is_some(), final(self).removed(), final(self).key() == old(self).key(), final(self).fut() == old(self).fut()
     { unimplemented!() }
 }
-/// an entry that goes out of scope leaves its (possibly modified) stream in the map
+/// when the entry is gone the map holds its (possibly modified) stream, or nothing for that id if it was removed
 #[verifier::external_body]
 pub broadcast proof fn axiom_recv_occ_resolved<'a>(e: RecvOcc<'a>)
-    ensures #[trigger] has_resolved(e) ==> recv_abs(e.fut(), e.key()) == Some(e.cur())
+    ensures #[trigger] has_resolved(e) ==> recv_abs(e.fut(), e.key()) == (if e.removed() { None } else { Some(e.cur()) })
 {}
 /// `match self.state.recv.entry(id) { Occupied(s) => s, Vacant(_) => .. }`
 #[verifier::external_body]
 pub fn recv_occupied<'a>(m: &'a mut FxHashMap<super::code::StreamId, Option<StreamRecv>>, id: super::code::StreamId) -> (r: Option<RecvOcc<'a>>)
     ensures match r {
-        Some(e) => recv_abs(*old(m), id) == Some(e.cur()) && e.cur().wf_spec() && e.key() == id && *final(m) == e.fut(),
+        Some(e) => recv_abs(*old(m), id) == Some(e.cur()) && e.cur().wf_spec() && e.key() == id && *final(m) == e.fut() && !e.removed(),
         None => recv_abs(*old(m), id).is_none() && *final(m) == *old(m),
     }
 { unimplemented!() }
